@@ -1497,6 +1497,113 @@ Import ListNotations.
 Open Scope N_scope.
 '''
 
+# ----------------------------------------------------------------------------
+# where owning handles and borrows are rebuilt from raw pointers: the provenance class of the pointer (C11, C12)
+# ----------------------------------------------------------------------------
+PROV_SINKS = ('Arc::from_raw', 'Self::from_raw', 'Arc::from_raw_slice', 'ArcBorrow::from_ptr', 'ThinArc::from_raw')
+def prov_class(e, env, params, depth=0):
+    """PParam: a parameter of the enclosing function (the caller's pointer, passed on); PStored: the pointer a handle or
+    borrow stores (NonNull field, as_ptr / into_raw of an Arc, a copy of a stored NonNull), possibly cast, masked through
+    an integer, or moved by a byte offset; PRef: derived from a reference to the value (`&*x`, `&**x`, NonNull::from(&..),
+    as_ref()): such a pointer has no provenance over the count in front of the value; PUnknownProv: anything else"""
+    e = strip(e)
+    if e is None or depth > 8: return 'PUnknownProv'
+    k = e[0]
+    if k == 'path' and len(e[1]) == 1:
+        n = e[1][0]
+        if n in env: return prov_class(env[n], dict((a, b) for a, b in env.items() if a != n), params, depth + 1)
+        if n in params: return 'PParam'
+        return 'PUnknownProv'
+    if k in ('cast', 'paren'): return prov_class(e[1], env, params, depth + 1)
+    if k == 'ref': return 'PRef'
+    if k == 'binary' and e[1] in ('&', '|'):
+        a = prov_class(e[2], env, params, depth + 1)
+        return a
+    if k == 'field':
+        # a stored NonNull (self.ptr / self.p / x.0) copied
+        b = strip(e[1])
+        if e[2] in ('ptr', 'p', '0') and b[0] == 'path' and len(b[1]) == 1: return 'PStored'
+        if e[2] in ('ptr', 'p', '0') and b[0] == 'field': return 'PStored'
+        return 'PUnknownProv'
+    if k == 'mcall':
+        if e[2] == 'as_ptr' and not e[4]:
+            r = strip(e[1])
+            if r[0] == 'field' and r[2] in ('ptr', 'p', '0'): return 'PStored'
+            if r[0] == 'path' and len(r[1]) == 1: return 'PStored'          # self.as_ptr() / arc.as_ptr(): addr_of on the stored pointer
+            return 'PUnknownProv'
+        if e[2] in ('cast', 'cast_mut', 'cast_const', 'byte_sub', 'byte_add', 'add', 'sub', 'offset', 'replace_ptr'): return prov_class(e[1], env, params, depth + 1)
+        if e[2] in ('as_ref', 'as_mut', 'deref', 'get'): return 'PRef'
+        return 'PUnknownProv'
+    if k == 'call':
+        cp = call_path(e) or ''
+        if cp in ('Arc::as_ptr', 'Arc::into_raw', 'Self::as_ptr', 'Self::into_raw', 'Arc::into_raw_inner') and len(e[2]) == 1: return 'PStored'
+        if cp.endswith('NonNull::new_unchecked') and len(e[2]) == 1: return prov_class(e[2][0], env, params, depth + 1)
+        if cp.endswith('NonNull::from') : return 'PRef'
+        if cp.endswith('ManuallyDrop::new') and len(e[2]) == 1: return prov_class(e[2][0], env, params, depth + 1)
+        return 'PUnknownProv'
+    if k in ('unsafe', 'block'):
+        b = e[1] if k == 'unsafe' else e
+        if b[2] is not None:
+            env2 = dict(env)
+            for st in b[1]:
+                if st[0] == 'let' and isinstance(st[1], str) and st[1].strip().isidentifier() and st[3] is not None: env2[st[1].strip()] = st[3]
+            return prov_class(b[2], env2, params, depth + 1)
+    return 'PUnknownProv'
+
+def extract_prov(src, facts, notes):
+    rows = []
+    for f, imp, fn in src.fns:
+        if fn.cfg_test() or any(a.replace(' ', '') == '#[test]' for a in fn.attrs): continue
+        p = fn.parent
+        in_test = False
+        while p is not None:
+            if p.cfg_test() or (p.kind == 'mod' and p.name == 'tests'): in_test = True
+            p = p.parent
+        if in_test: continue
+        try:
+            sig = parse_fn_sig(fn.header); body = fn_body(fn)
+        except (ParseError, IndexError, TypeError):
+            continue
+        params = set()
+        for pn, ty in sig['params']:
+            pn = pn.strip()
+            if pn.startswith('mut '): pn = pn[4:].strip()
+            params.add(pn)
+        qn = src.qual_name(imp, fn)
+        sites = []
+        def walk(e, env):
+            # scoped: a `let` is visible to what follows it in its block (and in nested blocks)
+            if isinstance(e, list):
+                for x in e: walk(x, env)
+                return
+            if not isinstance(e, tuple) or not e: return
+            if e[0] == 'block':
+                env2 = dict(env)
+                for st in e[1]:
+                    if st[0] == 'let':
+                        if st[3] is not None: walk(st[3], env2)
+                        if isinstance(st[1], str) and st[1].strip().isidentifier() and st[3] is not None: env2[st[1].strip()] = st[3]
+                    elif st[0] == 'expr': walk(st[1], env2)
+                if e[2] is not None: walk(e[2], env2)
+                return
+            if e[0] == 'call':
+                cp = call_path(e) or ''
+                if cp in PROV_SINKS and len(e[2]) == 1: sites.append((cp.replace('Self::', qn.split('::')[0] + '::'), e[2][0], dict(env)))
+                # a borrow built by hand: ArcBorrow(<NonNull>, PhantomData)
+                if cp == 'ArcBorrow' and len(e[2]) == 2: sites.append(('ArcBorrow(..)', e[2][0], dict(env)))
+            for x in e[1:]:
+                if isinstance(x, (tuple, list)): walk(x, env)
+        walk(body, {})
+        for sink, arg, env in sites:
+            rows.append([f, qn, sink, prov_class(arg, env, params)])
+    rows.sort()
+    facts['prov'] = rows
+
+def emit_prov(rows):
+    out = ['(* --- where handles and borrows are rebuilt from raw pointers, and what the pointer was derived from --- *)']
+    out.append('Definition raw_sinks : list (string * string * string * prov) :=\n  ' + coq_list(['(%s, %s, %s, %s)' % (coq_str(a), coq_str(b), coq_str(c), d) for a, b, c, d in rows], ';\n   ') + '.')
+    return out
+
 def run(srcdir):
     src = Source(srcdir)
     facts = {}; notes = list(src.errors)
@@ -1508,6 +1615,7 @@ def run(srcdir):
     extract_cmp(src, facts, notes)
     extract_serde(src, facts, notes)
     extract_traits(src, facts, notes)
+    extract_prov(src, facts, notes)
     import countprogs
     facts['count_progs'] = countprogs.extract_count_progs(src)
     facts['notes'] = notes
@@ -1525,6 +1633,7 @@ def run(srcdir):
     lines += emit_cmp(facts['cmp']); lines.append('')
     lines += emit_serde(facts['serde']); lines.append('')
     lines += emit_traits(facts['traits']); lines.append('')
+    lines += emit_prov(facts['prov']); lines.append('')
     CP = facts['count_progs']
     lines.append('(* --- the counter protocol as programs: Arc::drop_inner, Arc::try_unique (through is_unique/count), the not-unique path of Arc::unwrap_or_clone --- *)')
     lines.append('Definition count_progs : progs := mkProgs %s %s %s.' % tuple(coq_list(['(%s)' % re.sub(r'^(IRetIf(?:Ne|Eq)) (\d+)$', r'\1 \2%nat', i) if ' ' in i else i for i in CP[k]]) for k in ('drop', 'uniq', 'uoc')))
